@@ -127,6 +127,9 @@ def truthy(v):
     if isinstance(ty, TDict):
         k = fresh('k', ty.k.sort())
         return z3.Exists([k], z3.Select(ty.has(v.t), k))
+    if isinstance(ty, TAbs):
+        # an opaque container (e.g. a list of Mod objects): its truthiness is a function of the value (non-emptiness)
+        return z3.Function('truthy_' + ty.name, ty.sort(), z3.BoolSort())(v.t)
     if isinstance(ty, TBag):
         k = fresh('k', ty.elem.sort())
         return z3.Exists([k], z3.Select(v.t, k) > 0)
@@ -453,8 +456,12 @@ class Evaluator:
             return V(BOOL, (z3.And if isinstance(n.op, ast.And) else z3.Or)(*[v.t for v in vals]))
         # value-returning and/or
         ty = vals[0].ty
-        for v in vals[1:]:
-            ty = join_types(ty, v.ty)
+        try:
+            for v in vals[1:]:
+                ty = join_types(ty, v.ty)
+        except OutOfSubset:
+            # operands of unrelated types (`i == 0 and some_list`): only the truth value of such an expression is modelled
+            return V(BOOL, (z3.And if isinstance(n.op, ast.And) else z3.Or)(*[truthy(v) for v in vals]))
         res = coerce(vals[-1], ty).t
         for v in reversed(vals[:-1]):
             t = truthy(v)
